@@ -1,6 +1,6 @@
 #!/bin/sh
 # usage: tools/confirm_seed.sh <Cxx>   -- in the agent's scratch worktree: demo must FAIL with the patch and PASS without it
-ID=$1; W=/tmp/wt/$ID; cd $W || exit 2
+ID=$1; W=/tmp/wt/${ID}; cd $W || exit 2
 export CARGO_TARGET_DIR=$W/target
 NAMES=$(grep -A3 '^+.*#\[test\]' seed/demo.diff | grep -oE 'fn [a-zA-Z0-9_]+' | awk '{print $2}' | sort -u)
 echo "demo tests: $NAMES"
